@@ -188,6 +188,9 @@ def handle (op : String) (args : List String) : Option String := do
   | "c17.trs.array" => do
       let p ← v3Of (fs.take 3); let r ← qOf ((fs.drop 3).take 4); let s ← v3Of ((fs.drop 7).take 3)
       pure (fsHex ((C17Mesh.transformArray (trs.New p r s) (v3List (fs.drop 10)).toArray).toList.flatMap v3To))
+  | "c17.trs.inplace" => do
+      let p ← v3Of (fs.take 3); let r ← qOf ((fs.drop 3).take 4); let s ← v3Of ((fs.drop 7).take 3)
+      pure (fsHex ((C17Mesh.transformInPlace (trs.New p r s) (v3List (fs.drop 10)).toArray).toList.flatMap v3To))
   | "c17.quat.rotatearray" => do
       let q ← qOf (fs.take 4)
       pure (fsHex ((C17Mesh.rotateArray q (v3List (fs.drop 4)).toArray).toList.flatMap v3To))
